@@ -17,6 +17,12 @@ def plan(tier, seed, kf_ids):
     for x in xs:
         c = int(round(x * one)) - 128
         jobs.append(acc.acc1("c15", "exp", a, a, c, 8, 64, 20, False, 30))
+    for (sa, da, x) in (("I32F32", "I32F32", 2.0), ("I32F32", "I32F32", -1.0), ("I32F32", "I32F32", 10.0), ("I9F23", "I32F32", -1.0), ("I9F23", "I16F48", 6.0),
+                        ("I16F48", "I16F48", 2.5), ("I32F32", "I64F64", -1.0), ("I64F64", "I64F64", 5.0), ("I9F23", "I9F23", -1.0)):
+        fsrc = T.TYPES[sa][2]
+        jobs.append(acc.acc1("c15", "exp", sa, da, int(x * (1 << fsrc)), 0, 64, 20, True, 140, timeout=600,
+                             tag="w_%s_%s_c%s" % (sa.lower(), da.lower(), str(int(x * (1 << fsrc))).replace("-", "m"))))
+        jobs[-1].prio = 1
     # powi conventions and small exponents, exact rational oracle
     for name, body in (("c15_powi_conv_i9f23", '''
     let b: i32 = kani::any();
